@@ -33,6 +33,13 @@ pub trait InstructionProperties {
     #[must_use]
     fn calls_to(&self) -> Option<LabelStringToken>;
 
+    /// Checks if a instruction calls a function through a register.
+    ///
+    /// `jalr ra, rs, imm` links like a call, but the function it reaches is
+    /// not known: any function's effect has to be assumed.
+    #[must_use]
+    fn is_indirect_call(&self) -> bool;
+
     /// Checks if a instruction is an environment call
     #[must_use]
     fn is_ecall(&self) -> bool;
